@@ -10,6 +10,9 @@
 (*                exactly the accepted texts, in the same relative order,  *)
 (*                yields - whatever happened before on this set            *)
 (*   Query        read access; changes nothing                             *)
+(*   Get          GetModule of a loaded module: a Process in disguise      *)
+(*   Clear        the public ClearEntryCache: forgets the trees; what the   *)
+(*                next Process / Get yields is not affected                *)
 (* Batch is left uninterpreted (the harness computes it with the real      *)
 (* library on a fresh set); the specification says WHICH texts count and   *)
 (* that nothing else does.                                                 *)
@@ -17,7 +20,8 @@
 EXTENDS Naturals, Sequences, FiniteSets, TLC, Json
 CONSTANTS Good,     \* good texts: [id, names (module / submodule names the text defines)]
           Bad,      \* bad text ids
-          MaxOps
+          MaxOps,
+          WithGet   \* explore GetModule and ClearEntryCache as well
 
 VARIABLES hist,     \* the operations so far: [op, text, ok]
           goods,    \* accepted texts, in order of acceptance
@@ -42,7 +46,17 @@ Process == /\ Len(hist) < MaxOps
 Query == /\ Len(hist) < MaxOps /\ hist # <<>> /\ hist[Len(hist)].op = "process"
          /\ hist' = Append(hist, [op |-> "query", text |-> "", ok |-> TRUE])
          /\ UNCHANGED <<goods, expect>>
-Next == (\E t \in Good : LoadGood(t)) \/ (\E b \in Bad : LoadBad(b)) \/ Process \/ Query
+\* GetModule(name of a loaded module) processes the set and hands out that module's tree
+Get == /\ Len(hist) < MaxOps /\ goods # <<>>
+       /\ hist' = Append(hist, [op |-> "get", text |-> "", ok |-> TRUE])
+       /\ expect' = Append(expect, Ids(goods))
+       /\ UNCHANGED goods
+\* ClearEntryCache, right after a run: nothing a later run yields depends on it
+IsRun(o) == o.op \in {"process", "get"}
+Clear == /\ Len(hist) < MaxOps /\ hist # <<>> /\ IsRun(hist[Len(hist)])
+         /\ hist' = Append(hist, [op |-> "clear", text |-> "", ok |-> TRUE])
+         /\ UNCHANGED <<goods, expect>>
+Next == (\E t \in Good : LoadGood(t)) \/ (\E b \in Bad : LoadBad(b)) \/ Process \/ Query \/ (WithGet /\ (Get \/ Clear))
 Spec == Init /\ [][Next]_vars
 
 \* ---- properties -------------------------------------------------------------------
@@ -51,9 +65,9 @@ NoTrace == [][ (Len(hist') = Len(hist) + 1 /\ hist'[Len(hist')].op = "load" /\ ~
 \* the result of every Process is determined by the accepted texts alone, and re-processing changes nothing
 BatchEq == \A k \in 1..Len(expect) : \E j \in 0..Len(goods) : expect[k] = Ids(SubSeq(goods, 1, j))
 Idempotent == \A k \in 1..(Len(hist) - 1) :
-                (hist[k].op = "process" /\ hist[k+1].op = "process") =>
-                   LET n == Cardinality({j \in 1..k : hist[j].op = "process"}) IN expect[n] = expect[n + 1]
+                (IsRun(hist[k]) /\ IsRun(hist[k+1])) =>
+                   LET n == Cardinality({j \in 1..k : IsRun(hist[j])}) IN expect[n] = expect[n + 1]
 NamesUnique == \A a, b \in 1..Len(goods) : a # b => goods[a].names \cap goods[b].names = {}
 \* only histories that end with Process are exported (the others have nothing to observe at the end)
-Export == hist = <<>> \/ hist[Len(hist)].op # "process" \/ PrintT(<<"CASE", ToJson([hist |-> hist, expect |-> expect])>>)
+Export == hist = <<>> \/ ~IsRun(hist[Len(hist)]) \/ PrintT(<<"CASE", ToJson([hist |-> hist, expect |-> expect])>>)
 =============================================================================
